@@ -77,6 +77,8 @@ def run_one(item):
             want = [e.split('=', 1)[1] if '=' in e else e for e in expect if '=' not in e or e.startswith(pid + '=')]
             if expect == ['<silent>']:
                 hit = r.returncode == 0 and 'VIOLATION' not in r.stdout
+            elif expect == ['<analysis-broken>']:
+                hit = r.returncode == 2 and 'VIOLATION' not in r.stdout
             else:
                 hit = r.returncode == 1 and 'VIOLATION property=%s' % pid in r.stdout and (not want or any(x in rules for x in want))
             ok_all = ok_all and hit
